@@ -44,6 +44,12 @@ pub const ROOT_FENS: &[(&str, &str)] = &[
     ("ep", "8/8/3k4/8/3pP3/8/8/3RK3 b - e3 0 1"),
     ("ep", "8/8/1k6/2b5/2pP4/8/5K2/8 b - d3 0 1"),
     ("ep", "rnbqkbnr/1ppppppp/8/p3P3/8/8/PPPP1PPP/RNBQKBNR b KQkq - 0 1"),
+    // en-passant capture as the ONLY legal reply to a check given by the double-pushed pawn
+    // (position before the push; the critical state is one ply below)
+    ("ep", "1R6/2N5/8/k7/2p5/K7/1P6/8 w - - 0 1"),
+    ("ep", "8/8/R7/7k/5P1p/8/5KP1/8 w - - 0 1"),
+    // en passant that would be the only reply but is illegal (capturer pinned on the file): mate
+    ("ep", "1R6/2N5/8/k7/2p5/K7/1P6/2R5 w - - 0 1"),
     // --- promotion
     ("promo", "8/P1k5/K7/8/8/8/8/8 w - - 0 1"),
     ("promo", "1n1n4/2P5/8/8/8/8/k7/4K3 w - - 0 1"),
@@ -70,6 +76,12 @@ pub const ROOT_FENS: &[(&str, &str)] = &[
     ("mate", "7k/8/6Q1/8/8/8/8/K7 b - - 0 1"),
     ("mate", "5k2/5P2/5K2/8/8/8/8/8 w - - 0 1"),
     ("mate", "k7/2K5/8/8/8/8/8/1R6 w - - 0 1"),
+    ("mate", "6rk/6pp/8/6N1/8/8/8/K7 w - - 0 1"),
+    ("mate", "7k/5K1p/6P1/8/8/8/8/8 w - - 0 1"),
+    ("mate", "k7/8/1K6/8/8/8/8/7R w - - 0 1"),
+    ("mate", "8/8/8/8/8/6k1/8/r5NK w - - 0 1"),
+    ("mate", "k7/P7/K7/8/8/8/8/8 b - - 0 1"),
+    ("mate", "5k2/5P2/4K3/8/8/8/8/8 b - - 0 1"),
     // --- sparse endings
     ("sparse", "8/8/8/4k3/8/8/4P3/4K3 w - - 0 1"),
     ("sparse", "8/8/8/8/8/2k5/1r6/K7 w - - 0 1"),
